@@ -42,6 +42,7 @@ type c14Case struct {
 	Setup  []op      `json:"setup"`
 	ReqCap int       `json:"reqcap"`
 	Ticks  []tick    `json:"ticks"`
+	FaultAt int      `json:"faultat,omitempty"` // k > 0: from tick k-1 on the VAA store fails every call (closed handle, dead disk)
 }
 
 type entryModel struct {
@@ -121,6 +122,12 @@ func runC14(c c14Case) (*vh.Violation, vh.Outcome) {
 			gap = 1
 		}
 		cr.now += float64(gap)
+		if c.FaultAt > 0 && ti == c.FaultAt-1 && !e.faultDB {
+			if err := e.breakStore(); err != nil {
+				return fin(vh.V("harness/store-fault", "%v", err))
+			}
+			r.label("store-failing")
+		}
 		// the real clock keeps running underneath: absorb what elapsed since the previous shift so that
 		// every age the code computes is the virtual age plus at most a few milliseconds
 		tickStart := time.Now()
@@ -210,6 +217,24 @@ func runC14(c c14Case) (*vh.Violation, vh.Outcome) {
 			k := pre[h]
 			m := cr.ents[h]
 			_, alive := e.p.state.vaaSignatures[h]
+			if e.faultDB && k.stored {
+				// a quorum VAA is in the store but the store cannot be asked: keeping the entry and letting it go are both fine
+				if !alive {
+					delete(cr.ents, h)
+				}
+				if retried[h] > 0 { // a retry comes with its re-observation request
+					for _, mi := range e.msgs {
+						if mi.hash == h {
+							wantReq[fmt.Sprintf("%d/%x", uint32(mi.pub.EmitterChain), cr.ownObs[h][3])]++
+							nDueReq++
+						}
+					}
+					if st := e.p.state.vaaSignatures[h]; st != nil {
+						st.lastRetry = st.lastRetry.Add(-500 * time.Millisecond)
+					}
+				}
+				continue
+			}
 			age := cr.now - m.firstV + 0.5
 			switch {
 			case k.kind == "signed" && !k.stored:
@@ -399,6 +424,9 @@ func genC14(t *rapid.T) c14Case {
 		return tk
 	})
 	c.Ticks = rapid.SliceOfN(tickGen, 3, 60).Draw(t, "ticks")
+	if rapid.IntRange(0, 3).Draw(t, "storefault") == 0 {
+		c.FaultAt = rapid.IntRange(1, len(c.Ticks)).Draw(t, "faultat")
+	}
 	return c
 }
 
@@ -420,9 +448,15 @@ func TestVerif_C14_Budget(t *testing.T) {
 		}
 		return c
 	}
-	for _, cfg := range [][2]int{{300, 50}, {150, 50}, {300, 0}, {301, 1}, {302, 50}, {303, 50}} {
+	for _, cfg := range [][2]int{{300, 50}, {150, 50}, {300, 0}, {301, 1}, {302, 50}, {303, 50}, {304, 50}} {
 		c := mk(cfg[0], cfg[1])
 		switch cfg[0] {
+		case 304: // another guardian holds the same stuck message and keeps re-broadcasting its observation between this node's retries
+			for i := range c.Ticks {
+				if i%3 == 1 {
+					c.Ticks[i].Pre = []op{{K: "gossip", A: 0, B: 1, C: 0}}
+				}
+			}
 		case 302: // the watcher answers the node's re-observation requests: the same message is observed again between retries
 			for i := range c.Ticks {
 				if i%7 == 3 {
